@@ -26,6 +26,8 @@ func init() {
 }
 
 func runC52(c *eng.Ctx) {
+	defer runC52Whole(c)
+	defer runC52Flag(c)
 	p := c.P
 	inc := p.MethodOn("tsdb:headMetrics.activeAppenders", "Inc")
 	dec := p.MethodOn("tsdb:headMetrics.activeAppenders", "Dec")
